@@ -40,8 +40,19 @@ func genC15(rng *rand.Rand, n int, emit func(Case), dist map[string]int) {
 		minlen := []int{0, 1, 5, 8, 32, 1000}[rng.Intn(6)]
 		e := echo.New()
 		e.Logger.SetOutput(io.Discard)
-		e.Use(middleware.GzipWithConfig(middleware.GzipConfig{MinLength: minlen}))
-		e.Use(middleware.Decompress())
+		switch {
+		case minlen == 0 && rng.Intn(3) == 0:
+			e.Use(middleware.Gzip()) // the short constructor: no minimum length
+		case minlen == 0 && rng.Intn(2) == 0:
+			e.Use(middleware.GzipWithConfig(middleware.GzipConfig{MinLength: -5, Level: 1})) // a negative minimum means the default (0)
+		default:
+			e.Use(middleware.GzipWithConfig(middleware.GzipConfig{MinLength: minlen, Level: []int{0, -1, 1, 9}[rng.Intn(4)]}))
+		}
+		if rng.Intn(2) == 0 {
+			e.Use(middleware.Decompress())
+		} else {
+			e.Use(middleware.DecompressWithConfig(middleware.DecompressConfig{}))
+		}
 		type opT struct {
 			kind  int
 			code  int
@@ -83,7 +94,9 @@ func genC15(rng *rand.Rand, n int, emit func(Case), dist map[string]int) {
 				rng.Read(data)
 				enc := []string{"gzip", "", "identity", "br", "GZIP"}[rng.Intn(5)]
 				var body bytes.Buffer
-				if enc == "gzip" {
+				if enc == "gzip" && rng.Intn(6) == 0 {
+					data = nil // nothing at all behind "Content-Encoding: gzip": an empty body, not an error
+				} else if enc == "gzip" {
 					zw := gzip.NewWriter(&body)
 					zw.Write(data)
 					zw.Close()
